@@ -316,7 +316,8 @@ theorem strictEq_complete {a b : Str} (ha : NF a) (hb : NF b)
       rcases scan_cases s with ⟨ht, hs⟩ | ⟨ht, hs⟩
       · rw [utf16_decode_ascii ht] at h
         have : s = t := map_b2u_inj h
-        cases sc <;> simp [strictEq, impU, hs, this]
+        subst this
+        cases sc <;> simp [strictEq, impU, hs]
       · exact absurd h.symm (ascii_ne_nonascii hb (decode_nonascii ht))
     | uni t =>
       simp only [units] at h
@@ -370,9 +371,15 @@ theorem imported_invalid_spellings_equal :
 /-- StrictEquals is symmetric for all nine pairs (no NF needed) -/
 theorem strictEq_symm (a b : Str) : strictEq a b = strictEq b a := by
   have e8 : ∀ x y : List UInt8, (x == y) = (y == x) := fun x y => by
-    rw [Bool.eq_iff_iff]; simp [eq_comm]
+    by_cases h : x = y
+    · subst h; rfl
+    · have h' : y ≠ x := fun e => h e.symm
+      rw [beq_eq_false_iff_ne.mpr h, beq_eq_false_iff_ne.mpr h']
   have e16 : ∀ x y : List UInt16, (x == y) = (y == x) := fun x y => by
-    rw [Bool.eq_iff_iff]; simp [eq_comm]
+    by_cases h : x = y
+    · subst h; rfl
+    · have h' : y ≠ x := fun e => h e.symm
+      rw [beq_eq_false_iff_ne.mpr h, beq_eq_false_iff_ne.mpr h']
   cases a <;> cases b <;> simp only [strictEq]
   · exact e8 _ _
   · rename_i s t sc
@@ -487,7 +494,7 @@ theorem asUtf16_ascii {b : List UInt8} (hb : b.all asciiB = true) : asUtf16 b = 
         have := congrArg UInt16.toNat h
         simp [BOM] at this
         omega
-      simp [this]
+      simp only [this, Bool.false_eq_true, if_false]
 
 /-- key_roundtrip: string → unistring key → stringValueFromRaw gives back the same units, in normal form -/
 theorem key_roundtrip {x : Str} (hx : NF x) :
@@ -510,5 +517,315 @@ theorem key_roundtrip {x : Str} (hx : NF x) :
 /-- AsUtf16 (FromUtf16 u) = u for every UTF-16 payload with at least one unit -/
 theorem key_roundtrip_utf16 {u : List UInt16} (hne : u ≠ []) : asUtf16 (le16 (BOM :: u)) = some u :=
   asUtf16_le16 hne
+
+/-! ## StringBuilder / unicodeStringBuilder -/
+
+theorem sb_inv_empty : SB.empty.Inv := by simp [SB.Inv, SB.empty]
+
+theorem sb_switch {b : SB} (h : b.Inv) :
+    b.switchToUnicode.Inv ∧ b.switchToUnicode.started = true ∧ b.switchToUnicode.units = b.units := by
+  obtain ⟨h1, h2, h3, h4⟩ := h
+  unfold SB.switchToUnicode
+  by_cases hst : b.started = true
+  · rw [if_pos hst]
+    exact ⟨⟨h1, h2, h3, h4⟩, hst, rfl⟩
+  · rw [if_neg hst]
+    have hst' : b.started = false := by simpa using hst
+    obtain ⟨h5, h6⟩ := h2 hst'
+    simp [SB.Inv, SB.units, h5, h6, h1]
+    exact nonAscii_b2u_of_all h1
+
+/-- builder_units / builder_nf: WriteString appends the operand's units and keeps the invariant -/
+theorem sb_writeString {b : SB} {s : Str} (h : b.Inv) (hs : NF s) :
+    (b.writeString s).Inv ∧ (b.writeString s).units = b.units ++ units s := by
+  have hd := devirt_nf hs
+  obtain ⟨⟨k1, k2, k3, k4⟩, kst, ku⟩ := sb_switch h
+  obtain ⟨h1, h2, h3, h4⟩ := h
+  rw [← devirt_units s]
+  unfold SB.writeString
+  cases hdv : devirt s with
+  | a a =>
+    rw [hdv] at hd
+    simp only [DV.NF] at hd
+    cases hst : b.started
+    · obtain ⟨h5, h6⟩ := h2 hst
+      simp [SB.Inv, SB.units, DV.units, hst, h5, h6, h1, hd]
+    · simp [SB.Inv, SB.units, DV.units, hst, h1, h3 hst, h4, any_nonAscii_map_b2u, hd]
+      intro x hx hn
+      rw [nonAscii_b2u_of_all hd x hx] at hn
+      cases hn
+  | u u =>
+    rw [hdv] at hd
+    simp only [DV.NF] at hd
+    simp only [SB.units] at ku
+    simp [SB.Inv, SB.units, DV.units, k1, kst, k3 kst, hd, ← ku]
+
+theorem nonAsciiU_ofNat {r : Nat} (h : r ≤ 0xFFFF) : nonAsciiU (UInt16.ofNat r) = decide (0x80 ≤ r) := by
+  have : r % 65536 = r := by omega
+  simp [nonAsciiU, asciiU, this]
+  by_cases h2 : r < 128 <;> simp [h2] <;> omega
+
+theorem sb_writeRuneFast {b : SB} {r : Nat} (h : b.Inv) (hst : b.started = true) (hr : r ≤ 0x10FFFF) :
+    (b.writeRuneFast r).Inv ∧ (b.writeRuneFast r).started = true ∧
+      (b.writeRuneFast r).units = b.units ++ utf16One r := by
+  obtain ⟨h1, h2, h3, h4⟩ := h
+  unfold SB.writeRuneFast
+  split
+  · rename_i hle
+    simp [SB.Inv, SB.units, hst, h1, h3 hst, h4, utf16One, hle, nonAsciiU_ofNat hle]
+  · rename_i hgt
+    have hna : (utf16One r).any nonAsciiU = true := by
+      have := utf16One_head_nonascii (r := r) (by omega) hr []
+      simpa using this
+    simp [SB.Inv, SB.units, hst, h1, h3 hst, hna]
+
+/-- WriteRune appends the UTF-16 encoding of the rune; a surrogate code point is appended AS IS -/
+theorem sb_writeRune {b : SB} {r : Nat} (h : b.Inv) (hr : r ≤ 0x10FFFF) :
+    (b.writeRune r).Inv ∧ (b.writeRune r).units = b.units ++ utf16One r := by
+  unfold SB.writeRune
+  split
+  · rename_i hlt
+    cases hst : b.started
+    · obtain ⟨h1, h2, h3, h4⟩ := h
+      obtain ⟨h5, h6⟩ := h2 hst
+      have e1 : asciiB (UInt8.ofNat r) = true := by
+        have : r % 256 = r := by omega
+        simp [asciiB, this]; omega
+      have e2 : b2u (UInt8.ofNat r) = UInt16.ofNat r := by
+        apply UInt16.toNat_inj.mp
+        simp; omega
+      have e3 : utf16One r = [UInt16.ofNat r] := by simp [utf16One]; omega
+      simp [SB.Inv, SB.units, hst, h1, h5, h6, e1, e2, e3]
+    · simp only [if_true]
+      have := sb_writeRuneFast h hst hr
+      exact ⟨this.1, this.2.2⟩
+  · obtain ⟨k, kst, ku⟩ := sb_switch h
+    have := sb_writeRuneFast k kst hr
+    exact ⟨this.1, by rw [this.2.2, ku]⟩
+
+/-- lone_surrogate_preserved (builder): writing the code point of a surrogate appends exactly that unit -/
+theorem sb_writeRune_surrogate {b : SB} {r : Nat} (h : b.Inv) (hr : 0xD800 ≤ r ∧ r ≤ 0xDFFF) :
+    (b.writeRune r).units = b.units ++ [UInt16.ofNat r] := by
+  have := (sb_writeRune h (r := r) (by omega)).2
+  rw [this]
+  simp [utf16One]
+  omega
+
+theorem decodeS_le : ∀ (s : List UInt8) (k : Nat), ∀ r ∈ decodeS k s, r ≤ 0x10FFFF
+  | [], _, r, hr => by simp [decodeS] at hr
+  | b :: bs, k + 1, r, hr => by
+    simp only [decodeS] at hr
+    exact decodeS_le bs k r hr
+  | b :: bs, 0, r, hr => by
+    simp only [decodeS, List.mem_cons] at hr
+    rcases hr with rfl | hr
+    · by_cases hb : b.toNat < 128
+      · have : asciiB b = true := by simp [asciiB, hb]
+        rw [decodeRune_ascii bs this]
+        simp only
+        omega
+      · exact (decodeRune_bounds b bs hb).2
+    · exact decodeS_le bs _ r hr
+
+theorem sb_foldl_writeRuneFast : ∀ (rs : List Nat) {b : SB}, b.Inv → b.started = true → (∀ r ∈ rs, r ≤ 0x10FFFF) →
+    (rs.foldl SB.writeRuneFast b).Inv ∧ (rs.foldl SB.writeRuneFast b).units = b.units ++ utf16 rs
+  | [], b, h, _, _ => by simp [utf16, h]
+  | r :: rs, b, h, hst, hr => by
+    have h1 := sb_writeRuneFast h hst (hr r (by simp))
+    have h2 := sb_foldl_writeRuneFast rs h1.1 h1.2.1 (fun x hx => hr x (by simp [hx]))
+    simp only [List.foldl_cons]
+    exact ⟨h2.1, by rw [h2.2, h1.2.2, utf16_cons]; simp⟩
+
+theorem utf16_decode_takeWhile : ∀ s : List UInt8,
+    utf16 (decode s) = (s.takeWhile asciiB).map b2u ++ utf16 (decode (s.dropWhile asciiB))
+  | [] => rfl
+  | b :: bs => by
+    by_cases hb : asciiB b = true
+    · have ih := utf16_decode_takeWhile bs
+      simp only [decode] at ih ⊢
+      simp only [List.takeWhile_cons, List.dropWhile_cons, hb, if_true, decodeS, decodeRune_ascii bs hb, utf16_cons,
+        utf16One_ascii b hb, List.map_cons]
+      simpa using ih
+    · simp [List.takeWhile_cons, List.dropWhile_cons, hb]
+
+/-- WriteUTF8String appends the leniently decoded units of the Go string -/
+theorem sb_writeUTF8 {b : SB} (h : b.Inv) (s : List UInt8) :
+    (b.writeUTF8 s).Inv ∧ (b.writeUTF8 s).units = b.units ++ utf16 (decode s) := by
+  unfold SB.writeUTF8
+  split
+  · rename_i hst
+    exact sb_foldl_writeRuneFast _ h hst (decodeS_le s 0)
+  · rename_i hst
+    have hst' : b.started = false := by simpa using hst
+    split
+    · rename_i hall
+      obtain ⟨h1, h2, h3, h4⟩ := h
+      obtain ⟨h5, h6⟩ := h2 hst'
+      simp [SB.Inv, SB.units, hst', h1, h5, h6, hall, utf16_decode_ascii hall]
+    · obtain ⟨⟨k1, k2, k3, k4⟩, kst, ku⟩ := sb_switch h
+      have hpre : ((s.takeWhile asciiB).map b2u).any nonAsciiU = false := by
+        rw [any_nonAscii_map_b2u]
+        simp [all_takeWhile asciiB s]
+      have hinv : SB.Inv { b.switchToUnicode with ubuf := b.switchToUnicode.ubuf ++ (s.takeWhile asciiB).map b2u } := by
+        simp [SB.Inv, k1, kst, k3 kst, k4, hpre]
+      have := sb_foldl_writeRuneFast (decode (s.dropWhile asciiB)) hinv kst (decodeS_le _ 0)
+      refine ⟨this.1, ?_⟩
+      rw [this.2, utf16_decode_takeWhile s]
+      simp only [SB.units] at ku ⊢
+      rw [← List.append_assoc, ← List.append_assoc, ← ku]
+
+/-- WriteSubstring (as repaired by 58560e3) appends the slice's units; the `unicode` flag follows the slice -/
+theorem sb_writeSubstring {b : SB} {src : Str} (h : b.Inv) (hs : NF src) (st en : Nat) :
+    (b.writeSubstring src st en).Inv ∧ (b.writeSubstring src st en).units = b.units ++ slice (units src) st en := by
+  have hd := devirt_nf hs
+  obtain ⟨⟨k1, k2, k3, k4⟩, kst, ku⟩ := sb_switch h
+  obtain ⟨h1, h2, h3, h4⟩ := h
+  rw [← devirt_units src]
+  unfold SB.writeSubstring
+  cases hdv : devirt src with
+  | a a =>
+    rw [hdv] at hd
+    simp only [DV.NF] at hd
+    have hsl := all_slice hd st en
+    cases hst : b.started
+    · obtain ⟨h5, h6⟩ := h2 hst
+      simp [SB.Inv, SB.units, DV.units, hst, h5, h6, h1, hsl, slice_map]
+    · simp [SB.Inv, SB.units, DV.units, hst, h1, h3 hst, h4, any_nonAscii_map_b2u, hsl, slice_map]
+      intro x hx hn
+      rw [nonAscii_b2u_of_all hsl x hx] at hn
+      cases hn
+  | u us =>
+    simp only [DV.units]
+    cases hst : b.started
+    · obtain ⟨h5, h6⟩ := h2 hst
+      simp only [Bool.false_eq_true, if_false]
+      split
+      · rename_i hany
+        simp only [SB.units] at ku
+        simp [SB.Inv, SB.units, k1, kst, k3 kst, k4, hany, ← ku]
+      · rename_i hany
+        have hall : (slice us st en).all asciiU = true := by
+          rw [any_nonAscii_eq_not_all] at hany
+          simpa using hany
+        simp [SB.Inv, SB.units, hst, h5, h6, h1, all_asciiB_u2b hall, map_b2u_u2b hall]
+    · simp [SB.Inv, SB.units, hst, h1, h3 hst, h4]
+
+/-- builder_nf: String() returns a normal-form value (downgrading to ASCII storage when the flag is off)
+whose units are exactly what was written -/
+theorem sb_toStr {b : SB} (h : b.Inv) : NF b.toStr ∧ units b.toStr = b.units := by
+  obtain ⟨h1, h2, h3, h4⟩ := h
+  unfold SB.toStr
+  cases hst : b.started
+  · obtain ⟨h5, h6⟩ := h2 hst
+    simp [NF, units, SB.units, h1, h5]
+  · simp only [if_true]
+    cases hu : b.unicode
+    · have hall : b.ubuf.all asciiU = true := by
+        rw [hu, any_nonAscii_eq_not_all] at h4
+        simpa using h4.symm
+      simp [NF, units, SB.units, h3 hst, all_asciiB_u2b hall, map_b2u_u2b hall]
+    · rw [hu] at h4
+      simp [NF, units, SB.units, h3 hst, ← h4]
+
+/-- the regression repaired by 58560e3: setting the flag unconditionally in UTF-16 mode yields a
+UTF-16-stored "ab" — not in normal form, and `!==` the ASCII-stored "ab" although the units are equal. -/
+theorem writeSubstring_unconditional_flag_breaks_nf :
+    ¬ NF sbOldExample.toStr ∧ units sbOldExample.toStr = units (.ascii [0x61, 0x62]) ∧
+      strictEq sbOldExample.toStr (.ascii [0x61, 0x62]) = false := by
+  refine ⟨?_, by decide, by decide⟩
+  have : sbOldExample.toStr = .uni [0x61, 0x62] := by decide
+  rw [this]
+  simp only [NF]
+  decide
+
+/-! ## concatStrings (template literals) -/
+
+theorem concatStrings_units (l : List Str) : units (concatStrings l) = l.flatMap units := by
+  simp only [concatStrings]
+  have key : ∀ l : List Str, ((l.map devirt).flatMap DV.units) = l.flatMap units := by
+    intro l
+    induction l with
+    | nil => rfl
+    | cons x xs ih => simp [devirt_units, ih]
+  have key2 : ∀ ds : List DV, ds.all DV.isA = true → (ds.flatMap DV.bytes).map b2u = ds.flatMap DV.units := by
+    intro ds
+    induction ds with
+    | nil => intro _; rfl
+    | cons d ds ih =>
+      intro h
+      simp only [List.all_cons, Bool.and_eq_true] at h
+      cases d with
+      | a bs => simp [DV.bytes, DV.units, ih h.2]
+      | u us => simp [DV.isA] at h
+  split
+  · rename_i h
+    simp only [units]
+    rw [key2 _ h, key]
+  · simp only [units]
+    exact key l
+
+theorem nf_concatStrings {l : List Str} (hl : ∀ x ∈ l, NF x) : NF (concatStrings l) := by
+  simp only [concatStrings]
+  have hdv : ∀ d ∈ l.map devirt, d.NF := by
+    intro d hd
+    obtain ⟨x, hx, rfl⟩ := List.mem_map.mp hd
+    exact devirt_nf (hl x hx)
+  generalize l.map devirt = ds at hdv
+  split
+  · rename_i h
+    simp only [NF]
+    rw [List.all_eq_true]
+    intro c hc
+    obtain ⟨d, hd, hcd⟩ := List.mem_flatMap.mp hc
+    have hA := (List.all_eq_true.mp h) d hd
+    have hN := hdv d hd
+    cases d with
+    | a bs => exact (List.all_eq_true.mp hN) c hcd
+    | u us => simp [DV.isA] at hA
+  · rename_i h
+    simp only [NF]
+    have : ∃ d ∈ ds, DV.isA d = false := by
+      have h' : ds.all DV.isA = false := by simpa using h
+      rw [List.all_eq_false] at h'
+      obtain ⟨d, hd, hdA⟩ := h'
+      exact ⟨d, hd, by simpa using hdA⟩
+    obtain ⟨d, hd, hdA⟩ := this
+    have hN := hdv d hd
+    cases d with
+    | a bs => simp [DV.isA] at hdA
+    | u us =>
+      simp only [DV.NF] at hN
+      obtain ⟨c, hc, hcn⟩ := List.any_eq_true.mp hN
+      exact List.any_eq_true.mpr ⟨c, List.mem_flatMap.mpr ⟨.u us, hd, hc⟩, hcn⟩
+
+/-! ## lone surrogates: units are never rewritten -/
+
+/-- a unit of either operand is a unit of the concatenation (given the junction hypothesis of `concat_units`) -/
+theorem concat_mem (x y : Str)
+    (hsplit : ∀ s t, x = .imp s false → y = .imp t false → decode (s ++ t) = decode s ++ decode t) (c : UInt16) :
+    c ∈ units (concat x y) ↔ c ∈ units x ∨ c ∈ units y := by
+  rw [concat_units x y hsplit, List.mem_append]
+
+/-- the shortcut is safe whenever the left operand is ASCII -/
+theorem concat_units_ascii_left (s t : List UInt8) (hs : s.all asciiB = true) :
+    units (concat (.imp s false) (.imp t false)) = units (.imp s false) ++ units (.imp t false) := by
+  apply concat_units
+  intro s' t' h1 h2
+  cases h1; cases h2
+  exact decode_append_ascii_left t hs
+
+/-! ## non-vacuity (tests on literals, not proofs of the property) -/
+
+-- NF is satisfiable in all three representations, on non-trivial values
+example : NF (.ascii [0x61, 0x62]) ∧ NF (.uni [0x61, 0xD800]) ∧ NF (.imp [0xff, 0x61] false) := by
+  refine ⟨?_, ?_, trivial⟩ <;> simp only [NF] <;> decide
+-- the builder invariant holds in a state that is in UTF-16 mode with a non-ASCII unit
+example : (SB.empty.writeRune 0xD800).Inv := (sb_writeRune sb_inv_empty (by decide)).1
+example : (SB.empty.writeRune 0xD800).toStr = .uni [0xD800] := by decide
+-- the hypothesis of concat_units holds, e.g., for an ASCII left operand
+example : decode ([0x61] ++ [0xA9]) = decode [0x61] ++ decode [0xA9] := decode_append_ascii_left _ (by decide)
+-- three representations of "é" are pairwise StrictEqual in both directions
+example : strictEq (.uni [0xe9]) (.imp [0xc3, 0xa9] false) = true ∧ strictEq (.imp [0xc3, 0xa9] true) (.uni [0xe9]) = true := by
+  decide
 
 end GojaModel.C06
